@@ -70,6 +70,12 @@ thread_local! {
     static PER_THREAD_ALLOCATOR: RefCell<PerThreadChunkCache> = RefCell::new(PerThreadChunkCache::default());
 }
 
+#[cfg(starlark_verif)]
+pub(crate) fn verif_flush() {
+    let old = PER_THREAD_ALLOCATOR.with_borrow_mut(mem::take);
+    drop(old);
+}
+
 fn next_chunk_size(chunk_count_in_bump: usize) -> AlignedSize {
     // Replicate `bumpalo` behavior: 512 in the first chunk, double each next,
     // but not greater than 2G.
@@ -91,6 +97,8 @@ pub(crate) fn thread_local_alloc_at_least(
     len: AlignedSize,
     chunk_count_in_bump: usize,
 ) -> ChunkPart {
+    #[cfg(starlark_verif)]
+    crate::verif::sync::point("PerThreadChunkCache", 0, "fetch");
     let chunk = match PER_THREAD_ALLOCATOR.with_borrow_mut(|allocator| allocator.fetch(len)) {
         Some(chunk) => chunk,
         _ => {
@@ -107,6 +115,8 @@ pub(crate) fn thread_local_alloc_at_least(
 #[allow(clippy::if_same_then_else)]
 #[inline]
 pub(crate) fn thread_local_release(chunk: ChunkPart) {
+    #[cfg(starlark_verif)]
+    crate::verif::sync::point("PerThreadChunkCache", 0, "release");
     if chunk.is_full() {
         // Chunk part is the full chunk. Better return it to malloc.
         drop(chunk)
